@@ -27,7 +27,7 @@ m("c01-history-cache", "C01", "holopy/scattering/theory/mie.py",
   "        if (ensure_array(s.r) == 0).any():\n            raise InvalidScatterer(s, \"Radius is zero\")",
   "        if (ensure_array(s.r) == 0).any():\n            raise InvalidScatterer(s, \"Radius is zero\")\n        key = (float(np.max(ensure_array(s.r))), float(medium_wavevec))\n        if getattr(Mie, '_cache', (None, None))[0] == key:\n            return Mie._cache[1]\n        Mie._cache = (key, None)")
 # ---- C02 / C03
-m("c02-nstop-minus3", "C02 C03", "holopy/scattering/theory/mie_f/miescatlib.py", "return int(np.round(x+4.05*x**(1./3.)+2))", "return int(np.round(x+4.05*x**(1./3.)+2)) - 3")
+m("c02-nstop-minus3", "C02 C03", "holopy/scattering/theory/mie_f/miescatlib.py", "return int(np.round(np.absolute(x+4.05*x**(1./3.)+2)))", "return int(np.round(np.absolute(x+4.05*x**(1./3.)+2))) - 3")
 m("c02-layered-noncumulative", "C02 C20", "holopy/scattering/scatterer/sphere.py", "r[i+1] = r[i] + t", "r[i+1] = t")
 m("c03-cabs-sign", "C03", "holopy/scattering/theory/mie.py", "cabs = cext - cscat # conservation of energy", "cabs = cext + cscat # conservation of energy")
 m("c03-asym-prefactor", "C03", "holopy/scattering/theory/mie.py", "asym = 4. * np.pi / (medium_wavevec**2 * cscat)", "asym = 2. * np.pi / (medium_wavevec**2 * cscat)")
@@ -95,6 +95,17 @@ m("c19-rotation-transposed", "C19 C05 C10", "holopy/core/math.py", "            
 m("c20-inclusive", "C20", "holopy/scattering/scatterer/sphere.py", "(lambda points, ri=ri: (points**2).sum(-1) < ri**2)", "(lambda points, ri=ri: (points**2).sum(-1) <= ri**2)")
 m("c20-overlap-min", "C20 C12", "holopy/scattering/scatterer/spherecluster.py", "if cartesian_distance(s1.center, s2.center) < (np.max(s1.r) + np.max(s2.r)):", "if cartesian_distance(s1.center, s2.center) < (np.min(s1.r) + np.min(s2.r)):")
 m("c20-last-indicator-wins", "C20", "holopy/scattering/scatterer/scatterer.py", "        for i, ind in reversed(list(enumerate(indicators))):", "        for i, ind in list(enumerate(indicators)):")
+# ---- added after the independent seeded rounds (mechanisms the agents found that had no own mutation yet)
+m("c12-constraints-ignored", "C12", "holopy/inference/model.py", "            if not constraint.check(par_scat):\n                return -np.inf", "            if not constraint.check(par_scat):\n                pass")
+m("c08-mielens-no-conj", "C08 C02", "holopy/scattering/theory/mielens.py", "index_ratio = np.conj(scatterer.n / medium_index)", "index_ratio = scatterer.n / medium_index")
+m("c15-alias-numpy-scalars", "C15", "holopy/core/io/serialize.py", "(str, bool, int, float, np.generic)", "(str, bool, int, float)")
+m("c04-auto-rule-squared", "C04 C09", "holopy/scattering/interface.py", "max_separation = np.linalg.norm(dx, axis=2).max()", "max_separation = (dx ** 2).sum(axis=2).max()")
+m("c07-seed-falsy", "C07", "holopy/core/metadata.py", "    if seed is not None:", "    if seed:")
+m("c16-pack-falsy", "C16", "holopy/core/io/io.py", "if val is not None:", "if val:")
+m("c18-zero-filter-isclose", "C18", "holopy/core/process/img_proc.py", "xr.where(image > 0, image, np.nan)", "xr.where(np.isclose(image, 0), np.nan, image)")
+m("c20-translated-falsy", "C20 C19", "holopy/scattering/scatterer/scatterer.py", "if coord2 is None and len(ensure_array(coord1) == 3):", "if not coord2 and len(ensure_array(coord1) == 3):")
+m("c06-nested-components-dropped", "C06", "holopy/scattering/scatterer/composite.py", "components += s.get_component_list()", "components = s.get_component_list()")
+m("c03-asym-over-cext", "C03", "holopy/scattering/theory/mie.py", "asym = 4. * np.pi / (medium_wavevec**2 * cscat)", "asym = 4. * np.pi / (medium_wavevec**2 * cext)")
 
 
 def sh(cmd, **kw):
